@@ -28,7 +28,9 @@ func slotRules(c *Check, v *valTerms, name string) {
 	others := returnsWhere(pg, func(s *PState) bool { return !(retKey(s, 0) == "nil" && retKey(s, 1) == vc) })
 	c.noPathFrom(pg, rule+".1", name+": chain validation failure returns that error and no results", "after chain validation failed only (nil, that error) is returned", vcFail, others, nil)
 	work := AnyOf(LP{Desc: "go", F: func(l Label) bool { return l.Kind == "go" }}, CallTo(ocspCheckFn), CallTo(crlCheckFn),
-		LP{Desc: "slot store", F: func(l Label) bool { return (l.Kind == "store" || l.Kind == "lstore") && strings.HasPrefix(l.Key, v.R+"[") }})
+		LP{Desc: "slot store", F: func(l Label) bool {
+			return (l.Kind == "store" || l.Kind == "lstore") && strings.HasPrefix(l.Key, v.R+"[")
+		}})
 	workSrc := edgeSources(pg, work)
 	c.floor(name+" work edges", 3, len(workSrc))
 	c.mustPass(pg, rule+".1", name+": nothing before the chain is non-empty", "spawning, checking or storing a result", workSrc, A("-Empty("+v.chain+")"))
